@@ -4,10 +4,12 @@
 package main
 
 import (
+	"database/sql"
 	"encoding/json"
 	"errors"
 	"fmt"
 	"os"
+	"reflect"
 	"sort"
 	"strings"
 
@@ -402,6 +404,50 @@ func run(db *gorm.DB, in Input) (o Obs) {
 		if r.RowsAffected > 0 {
 			o.Prim = &prim
 		}
+		// every other primitive destination kind gorm lists reports the same value and count
+		if r.Error == nil {
+			var (
+				vi   int
+				vi8  int8
+				vi16 int16
+				vi32 int32
+				vu   uint
+				vu8  uint8
+				vu16 uint16
+				vu32 uint32
+				vu64 uint64
+				vf32 float32
+				vf64 float64
+				vs   string
+				vn   sql.NullInt64
+			)
+			for _, d := range []interface{}{&vi, &vi8, &vi16, &vi32, &vu, &vu8, &vu16, &vu32, &vu64, &vf32, &vf64, &vs, &vn} {
+				r2 := chain(db, in).Model(&Item{}).Select("id").Scan(d)
+				got := fmt.Sprint(reflect.ValueOf(d).Elem().Interface())
+				if nv, ok := d.(*sql.NullInt64); ok {
+					got = fmt.Sprint(nv.Int64)
+				}
+				want := "0"
+				if o.Prim != nil {
+					want = fmt.Sprint(*o.Prim)
+				}
+				if vs == "" && d == interface{}(&vs) {
+					got = "0"
+					if o.Prim != nil {
+						got = ""
+					}
+				}
+				if r2.Error != nil || r2.RowsAffected != o.PrimRA || (o.Prim != nil && got != want) {
+					o.Errs = append(o.Errs, fmt.Sprintf("Scan into %T: %v (RowsAffected %d, error %v), into int64: %s (%d)", d, got, r2.RowsAffected, r2.Error, want, o.PrimRA))
+				}
+				if len(o.Find) > 0 {
+					r3 := chain(db, in).Model(&Item{}).Select("id").Take(d)
+					if r3.Error != nil || r3.RowsAffected != 1 {
+						o.Errs = append(o.Errs, fmt.Sprintf("Take into %T: RowsAffected %d, error %v", d, r3.RowsAffected, r3.Error))
+					}
+				}
+			}
+		}
 	}
 	// slice-of-maps destinations through Scan and Rows+ScanRows; single-record finders into a map
 	{
@@ -595,6 +641,45 @@ func moreShapes(db *gorm.DB, in Input, o *Obs) {
 			if fmt.Sprint(a) != fmt.Sprint(o.Find) || fmt.Sprint(b) != fmt.Sprint(o.Find) {
 				o.Errs = append(o.Errs, fmt.Sprintf("MapColumns: structs %v, maps %v, Find %v", a, b, o.Find))
 			}
+		}
+	}
+	if (in.Cond.Kind == "" || in.Cond.Kind == "all") && len(in.Lops) == 0 && (in.Ord == "none" || in.Ord == "") && len(in.Tbl) > 0 {
+		// an ordering given as an expression, then First / Last / FindInBatches: they order by key
+		lo, hi := in.Tbl[0].ID, in.Tbl[0].ID
+		for _, r := range in.Tbl {
+			if r.ID < lo {
+				lo = r.ID
+			}
+			if r.ID > hi {
+				hi = r.ID
+			}
+		}
+		ex := func() *gorm.DB {
+			return db.Model(&Item{}).Clauses(clause.OrderBy{Expression: clause.Expr{SQL: "v desc, id desc"}})
+		}
+		var f, l Item
+		e1, e2 := ex().First(&f).Error, ex().Last(&l).Error
+		if e1 != nil || e2 != nil || f.ID != lo || l.ID != hi {
+			o.Errs = append(o.Errs, fmt.Sprintf("expression ordering: First %d (%v), Last %d (%v); lowest / highest key %d / %d", f.ID, e1, l.ID, e2, lo, hi))
+		}
+		var batch []Item
+		seen := []int64{}
+		e3 := ex().FindInBatches(&batch, 2, func(*gorm.DB, int) error {
+			for _, b := range batch {
+				seen = append(seen, b.ID)
+			}
+			if len(seen) > 4*len(in.Tbl)+4 {
+				return fmt.Errorf("runaway")
+			}
+			return nil
+		}).Error
+		sortedIDs := []int64{}
+		for _, r := range in.Tbl {
+			sortedIDs = append(sortedIDs, r.ID)
+		}
+		sort.Slice(sortedIDs, func(i, j int) bool { return sortedIDs[i] < sortedIDs[j] })
+		if e3 != nil || fmt.Sprint(seen) != fmt.Sprint(sortedIDs) {
+			o.Errs = append(o.Errs, fmt.Sprintf("expression ordering: FindInBatches delivered %v (%v), keys %v", seen, e3, sortedIDs))
 		}
 	}
 	if in.Cond.Kind == "" || in.Cond.Kind == "all" {
